@@ -16,6 +16,8 @@ def build_response(h, kind, var):
     v = schema.build(ctx, m)
     node = schema.cbor_ser(m)
     body = C.encode(node)
+    end = C.check_canonical(body)      # the oracle encoding must itself be canonical
+    assert end == len(body), "oracle encoding has trailing bytes"
     h.requires = tuple(sorted(set(h.requires) | ctx.requires))
     h.sample = "%s %s" % (kind, node.describe())
     return ctx, m, schema, v, body, node
@@ -27,7 +29,8 @@ def encode_harness(name, prop, kind, var, desc, N=None, prefill=0, mode="equiv",
              "exact"  byte equality with the canonical oracle encoding
              "canon"  (C03) the produced body passes the canonical-form validator
        via:  "response" through ctap2::Response::serialize::<N>; "direct" cbor_serialize(&value, &mut [u8; K])"""
-    h = Harness(name, prop, desc, tiers=tiers, timeout=timeout, stub_utf8=None)
+    h = Harness(name, prop, desc, tiers=tiers, timeout=timeout, stub_utf8="assume")
+    h.encode_side = True
     ctx, m, schema, v, body, node = build_response(h, kind, var)
     empty = body == [0xA0]
     exp = [0x00] + ([] if empty else body)
@@ -66,34 +69,38 @@ def encode_harness(name, prop, kind, var, desc, N=None, prefill=0, mode="equiv",
         h.add('    Err(_) => assert!(false, "value must serialise into a buffer that is large enough"),')
         h.add("};")
         h.fsa = fsa_for(K)
-        h.unwind = max(h.maxlen + 4, 36)
+        h.unwind = max(h.maxlen + 4, E + 4, 36)
         h.bounds = {"expected_bytes": E - 1, "unwind": h.unwind, "mode": mode, "entry": "cbor_serialize"}
     h.add('kani::cover!(true, "response encoded and compared");')
+    if via == "response" and kind != "LargeBlobs":
+        # with `large-blobs` every ctap2::Response value carries a 3008-byte buffer and each move of
+        # it costs minutes of symbolic execution: the Response::serialize path of the other kinds is
+        # checked in the configurations without it, their bodies in all configurations via "direct"
+        h.forbids = tuple(sorted(set(h.forbids) | {spec.LB}))
     return h
 
 
 def emit_compare(h, mode, actual, expected, indent=""):
-    if mode == "exact":
-        h.add(indent + 'assert!(eq(&%s, &%s), "encoded bytes differ from the reference encoding");' % (actual, expected))
-    elif mode == "equiv":
-        h.add(indent + 'assert!(crate::canon::equivalent(&%s, &%s), '
-              '"encoded map differs from the reference (member missing/extra, wrong key or wrong value)");' % (actual, expected))
-    elif mode == "canon":
-        h.add(indent + 'assert!(crate::canon::is_canonical(&%s), "encoded body is not CTAP2 canonical CBOR");' % actual)
-        h.add(indent + 'assert!(crate::canon::equivalent(&%s, &%s), "encoded map differs from the reference");' % (actual, expected))
-    else:
-        raise ValueError(mode)
+    """Byte equality with the reference encoding.  (Walking the bytes the crate produced with a
+    reference parser is not tractable: to CBMC the output buffer has symbolic layout.)  The
+    reference encoding itself is checked to be CTAP2-canonical at generation time
+    (vk.cbor.check_canonical), so equality implies canonical form."""
+    h.add(indent + 'assert!((%s).len() == (%s).len(), "encoded length differs from the reference encoding");' % (actual, expected))
+    h.add(indent + 'assert!(eq(&%s, &%s), "encoded bytes differ from the reference encoding '
+          '(member missing/extra, wrong key, wrong value or wrong order)");' % (actual, expected))
 
 
 def value_harness(name, prop, schema, var, desc, mode="canon", tiers=("quick", "thorough"), timeout=1500):
     """cbor_serialize of a stand-alone public serialisable type"""
-    h = Harness(name, prop, desc, tiers=tiers, timeout=timeout, stub_utf8=None)
+    h = Harness(name, prop, desc, tiers=tiers, timeout=timeout, stub_utf8="assume")
     var.symbool = True
+    h.encode_side = True
     ctx = Ctx(h, var)
     m = schema.make(ctx, schema.name)
     v = schema.build(ctx, m)
     node = schema.cbor_ser(m) if hasattr(schema, "cbor_ser") else schema.cbor(m)
     exp = C.encode(node)
+    assert C.check_canonical(exp) == len(exp)
     h.requires = tuple(sorted(ctx.requires))
     h.sample = node.describe()
     h.add(*h.array_literal("exp", exp))
@@ -108,6 +115,6 @@ def value_harness(name, prop, schema, var, desc, mode="canon", tiers=("quick", "
     h.add("};")
     h.add('kani::cover!(true, "value encoded and compared");')
     h.fsa = fsa_for(K)
-    h.unwind = max(h.maxlen + 4, 36)
+    h.unwind = max(h.maxlen + 4, len(exp) + 4, 36)
     h.bounds = {"expected_bytes": len(exp), "unwind": h.unwind, "mode": mode, "type": schema.rust}
     return h
